@@ -23,6 +23,14 @@ private:
   CstList cstList{ [&core = *this] (const EntityUID uid) { return core.RSLang().At(uid).type; } };
 
 public:
+  ~RSCore() noexcept = default;
+  RSCore() = default;
+  RSCore(const RSCore& rhs);
+  RSCore& operator=(const RSCore& rhs) = default;
+  RSCore(RSCore&& rhs) noexcept;
+  RSCore& operator=(RSCore&& rhs) noexcept = default;
+
+public:
   [[nodiscard]] RSFormIterator begin() const noexcept;
   [[nodiscard]] RSFormIterator end() const noexcept;
   [[nodiscard]] size_t size() const noexcept;
